@@ -39,6 +39,7 @@ Sites == {"typeDoc", "groupDoc", "specDoc", "funcDoc", "methodDoc", "fieldDocImm
           "trailingType", "localType", "varDoc", "constDoc", "ifaceMethodDoc", "detachedDoc", "blockDoc", "blockSlashLine", "insideBody",
           "groupSecondSpec",     \* the comment documents the *previous* spec of the same type (...) group
           "afterDirectiveDoc",   \* the comment trails the previous declaration; the item's own doc is a //go: directive only
+          "packageDoc",          \* a line of the package documentation (the comment group in front of the package clause)
           "fieldDocImmMulti",    \* doc of a field declaration with two names (`F, G int`) of an @immutable struct: applies to both names
           "typeDocCaseTwins"}    \* typeDoc with a list of two names that differ only in letter case (`@constructor a, A`): both are kept
 Effective(s, kw) ==
@@ -135,7 +136,8 @@ InitLine ==
   \/ /\ Mode = "lines"
      /\ line \in [opener : {"//", "/*"}, pre : Pres, kw : Keywords \cup NearKeywords, rest : RestSeqs(MaxLen)]
      /\ (line.opener = "/*" => line.pre = "sp")
-     /\ (line.kw \in NearKeywords => Len(line.rest) <= 1)
+     \* a near-keyword line may go on to mention the real keyword (`// @Immutable ... @immutable`): still not an annotation
+     /\ (line.kw \in NearKeywords => Len(line.rest) <= 1 \/ line.rest = <<"SP", "K2">>)
      /\ site = "doc"
   \/ /\ Mode = "sites"
      /\ \E kw \in Keywords \ {"ignore"}, s \in Sites :
